@@ -14,10 +14,6 @@ def btWidth (s : String) : Option Nat :=
   | "u8" => some 8 | "u16" => some 16 | "u32" => some 32 | "u64" => some 64 | _ => none
 
 /-- known-finding classes of C08 (decidable on the inputs) -/
-def intClassShr (n : Nat) (a : Nat) (k : Int) : String :=
-  -- D8: arithmetic right shift by ≥ nbits of a negative value gives 0 instead of −1
-  if k ≥ (n : Int) && a ≥ 2 ^ (n - 1) then "integer.shr.count_ge_nbits_negative" else ""
-
 def intClassDiv (w n a b : Nat) : String :=
   if n == w && w ≥ 32 && a == 2 ^ (n - 1) && b == 2 ^ n - 1 then "integer.div.native_maxneg_by_minus1" else ""
 
@@ -68,7 +64,7 @@ def integerHandler : Handler := fun lhs rhs => do
       let m := if op == "shl" then Integer.shl w n (lim a) c else Integer.shr w n (lim a) c
       let e := if op == "shl" then IntegerSpec.shl n a c else IntegerSpec.shr n a c
       let right : Int := if op == "shr" then c else -c
-      let cls := intClassShr n a right
+      let cls := ""
       let mag := right.natAbs
       let kind := if c == 0 then "zero" else if mag > n then "gt-n" else if mag == n then "eq-n"
         else if mag % w == 0 then "blocks" else if mag > w then "blocks+bits" else "bits"
